@@ -44,7 +44,102 @@ def _in_closure_bar(cond, i):
     return False  # closures live inside parentheses (depth > 0) in every recognised form
 
 
+def suspicious_forms(src):
+    """Shapes of the anchored source that are *known to be dangerous* for C11 / C13 (each one was a seeded or
+    self-seeded breaking change, or a one-token variation of one). They are looked for independently of the
+    closed set of recognised forms: when one is present the generated file lists it in `transferSuspicious`
+    and `C11.no_suspicious_forms` / `C13.no_suspicious_forms` stop checking — instead of the extractor raising
+    ExtractError and the check silently falling back to the committed defaults."""
+    sus = []
+    def body(block, name):
+        try:
+            return _norm(fn_body(block, name))
+        except Exception:
+            return None
+    try:
+        tc = impl_block(src, r"impl TransferControl\s*\{")
+        ring = impl_block(src, r"impl ReplayRing\s*\{")
+    except Exception:
+        return sus
+    b = body(tc, "wait_for_credit")
+    if b:
+        if re.search(r"in_flight = \w+\.sent_offset ?(-|\.wrapping_sub|\.abs_diff|\.checked_sub|\.max|\.min)", b):
+            sus.append("wait_for_credit: in-flight is not `sent_offset.saturating_sub(acked_offset)`")
+        k = b.find("let in_flight")
+        m = re.search(r"if ((?:[^{}]|\{[^{}]*\})*?) \{ return Ok\(\(\)\); \}", b[k:]) if k >= 0 else None
+        if m:
+            parts = _split_or(m.group(1))
+            if len(parts) > 2 or (len(parts) == 2 and parts[0] not in ("in_flight == 0", "0 == in_flight")):
+                sus.append("wait_for_credit: the grant condition has a disjunct other than `in_flight == 0` and the fit test")
+            fit = parts[-1]
+            if re.search(r"wrapping_add|overflowing_add|unchecked_add|abs_diff| as u32| as i64| as u16| as usize", fit) or re.search(r"(>=|>) \w+\.window_bytes", fit) or "&&" in fit and "is_some_and" not in fit and "map_or" not in fit and "matches!" not in fit:
+                sus.append("wait_for_credit: the fit test uses a wrapping / truncating sum or a reversed comparison")
+        if len(re.findall(r"return Ok\(\(\)\)", b)) > 1:
+            sus.append("wait_for_credit: more than one `return Ok(())`")
+    b = body(tc, "record_ack")
+    if b:
+        m = re.search(r"if file_index (\S+) \w+\.current_file_index", b)
+        if m and m.group(1) != "==":
+            sus.append(f"record_ack: the file gate is `{m.group(1)}`, not `==`")
+        if re.search(r"received_through_offset\.max\(", b) or re.search(r"if capped (<=|<|!=) ", b):
+            sus.append("record_ack: the cap / the comparison with acked_offset is reversed")
+    b = body(tc, "record_sent")
+    if b and re.search(r"\w+\.sent_offset (=|\+=) ", b) and not re.search(r"if new_offset (>|>=) (\w+)\.sent_offset \{ \2\.sent_offset = new_offset; \}", b) \
+            and not re.search(r"(\w+)\.sent_offset = \1\.sent_offset\.max\(new_offset\);", b):
+        sus.append("record_sent: sent_offset is not kept as a high-water mark")
+    b = body(ring, "push")
+    if b:
+        if not re.search(r"\bwhile\b", b) and re.search(r"if self\.bytes_held (>=|>) self\.capacity_bytes", b):
+            sus.append("ReplayRing::push: the eviction is an `if`, not a loop")
+        if "pop_back" in b:
+            sus.append("ReplayRing::push: evicts with pop_back")
+        mw = re.search(r"while [^{]*\{", b)
+        if mw:
+            i = b.find("{", mw.start())
+            lb = b[i:match_brace(b, i)]
+            for arg in re.findall(r"\.(?:saturating_sub|wrapping_sub|checked_sub)\((.*?)\);", lb) + re.findall(r"bytes_held -= (.*?);", lb):
+                if "front" not in arg:
+                    sus.append("ReplayRing::push: the eviction does not subtract the evicted chunk's own wire length")
+    b = body(ring, "covers")
+    if b:
+        if re.search(r"\.offset (<=|>=|<|>|!=) offset|offset (<=|>=|<|>|!=) \w+\.offset", b) or re.search(r"is_empty\(\) \{ return true", b) \
+                or re.search(r"highest_end_offset\(\) (>=|<=|>|<|!=)", b):
+            sus.append("ReplayRing::covers: a test other than equality with a chunk start / the trailing edge / 0 on an empty ring")
+    b = body(ring, "replay_from")
+    if b and re.search(r"\.offset (>|<=|<|==|!=) offset", b):
+        sus.append("ReplayRing::replay_from: the filter is not `offset >= requested`")
+    b = body(tc, "wait_for_reconnect")
+    if b and ".pending_resume.take()" not in b and re.search(r"pending_resume\.(clone\(\)|as_ref\(\)|as_mut\(\))|&\w+\.pending_resume", b):
+        sus.append("wait_for_reconnect: the pending resume is read without being taken")
+    b = body(tc, "request_resume")
+    if b:
+        if re.search(r"if \w+\.replay\.covers\(", b) and not re.search(r"if !\w+\.replay\.covers\(", b):
+            sus.append("request_resume: the ring test is not negated")
+        m = re.search(r"if file_index (\S+) \w+\.current_file_index", b)
+        if m and m.group(1) != "!=":
+            sus.append(f"request_resume: the file test is `{m.group(1)}`, not `!=`")
+        if ".cancelled" not in b:
+            sus.append("request_resume: cancelled is not tested")
+    return sus
+
+
 def extract():
+    """Facts + the list of known-dangerous shapes. An unrecognised form raises ExtractError (→ committed
+    defaults) only when no dangerous shape was seen; otherwise the defaults are generated *with* the list, so the
+    `no_suspicious_forms` theorems fail instead of the check falling back silently."""
+    src = test_mod_cut(strip(read(SRC)))
+    sus = suspicious_forms(src)
+    try:
+        facts = _extract()
+    except ExtractError as ex:
+        if not sus:
+            raise
+        facts = {"fallback": True, "unrecognised": str(ex)}
+    facts["suspicious"] = sus
+    return facts
+
+
+def _extract():
     full = strip(read(SRC))
     src = test_mod_cut(full)
     facts, where = {}, {}
@@ -150,10 +245,19 @@ def extract():
     writes = re.findall(r"(\w+)\.cancelled = ", b)
     if not writes or "notify_all()" not in b:
         raise ExtractError("cancel: no `G.cancelled = …` write / no notify_all() found")
-    # exactly one write, of `Some(reason.into())`, inside exactly this guard; any other guard (a test on the
-    # stored string, an `||`, no guard) is read pessimistically: a later cancel may replace the reason
-    facts["cancelFirstWins"] = len(writes) == 1 and re.search(
-        r"if (\w+)\.cancelled\.is_none\(\) \{ \1\.cancelled = Some\(reason\.into\(\)\); self\.cv\.notify_all\(\); \}", b) is not None
+    # recognised first-writer-wins forms: the write under `if G.cancelled.is_none() { … }`, or after an early
+    # `if G.cancelled.is_some() { return; }`. Known-dangerous shapes — a guard that looks at the stored string or
+    # has an alternative (`is_none_or`, `is_empty`, `trim`, `as_deref`, `map_or`, `||`), no test of `cancelled` at
+    # all, more than one write — read as "a later cancel may replace the reason". Anything else: not recognised.
+    form_a = re.search(r"if (\w+)\.cancelled\.is_none\(\) \{ \1\.cancelled = Some\(reason\.into\(\)\); self\.cv\.notify_all\(\); \}", b)
+    form_b = re.search(r"if (\w+)\.cancelled\.is_some\(\) \{ return; \} \1\.cancelled = Some\(reason\.into\(\)\); self\.cv\.notify_all\(\);", b)
+    guard_m = re.search(r"if ([^{]*cancelled[^{]*)\{", b)
+    if len(writes) == 1 and (form_a or form_b):
+        facts["cancelFirstWins"] = True
+    elif len(writes) > 1 or guard_m is None or re.search(r"is_none_or|is_empty|trim\(|as_deref|map_or|\|\||is_some_and|== Some|!= Some|len\(\)", guard_m.group(1)):
+        facts["cancelFirstWins"] = False
+    else:
+        raise ExtractError("cancel: the guard of `G.cancelled = …` is neither a recognised first-writer-wins form nor a known overwriting one")
     b = fn_body(tc, "advance_to_file")
     sts = statements(b)
     facts["advanceDropsPending"] = any(re.fullmatch(r"\w+\.pending_resume = None;", st) for st in sts)
@@ -223,6 +327,11 @@ def extract():
 
 def render(f):
     b = lambda x: "true" if x else "false"
+    sus_line = "def transferSuspicious : List String := [" + ", ".join('"' + x.replace('\\', '').replace('"', "'") + '"' for x in f.get("suspicious", [])) + "]"
+    if f.get("fallback"):
+        import os
+        text = open(os.path.join(os.path.dirname(os.path.abspath(__file__)), "defaults", GEN_FILE)).read()
+        return re.sub(r"def transferSuspicious : List String := \[.*?\]\n", lambda _: sus_line + "\n", text, count=1)
     return "\n".join([
         "import RepeVerif.Model.Transfer",
         "/-! GENERATED by /verif/extract/transfer.py from /repo (src/stream.rs). -/",
@@ -246,6 +355,8 @@ def render(f):
         f"def newUsesDefaultRing : Bool := {b(f['newUsesDefaultRing'])}",
         "/-- the only methods `watchdog_loop` calls on a transfer are `is_cancelled`, `timestamps`, `cancel` -/",
         f"def watchdogOnlyCancels : Bool := {b(f['watchdogOnlyCancels'])}",
+        "/-- shapes of the source known to be dangerous for C11 / C13 that the extractor saw (`extract/transfer.py`, `suspicious_forms`) -/",
+        sus_line,
         "/-- … and how many times it explicitly drops that guard. -/",
         "def transferGuardDrops : List (String × Nat) := [" + ", ".join(f'("{n}", {c})' for n, c in f["guardDrops"]) + "]",
         "end Repe.Gen",
